@@ -419,19 +419,24 @@ fn gen_styles(g: &mut G) -> StyleBook {
         }
         x.push_str("</numFmts>");
     }
-    x.push_str("<fonts count=\"4\"><font><sz val=\"11\"/><name val=\"Calibri\"/><family val=\"2\"/></font>");
+    // fonts: children in different orders, optional children missing, <b val="0"/>, underline / strike, colours by rgb / theme+tint / indexed
+    x.push_str("<fonts count=\"6\"><font><sz val=\"11\"/><name val=\"Calibri\"/><family val=\"2\"/></font>");
     x.push_str("<font><b/><sz val=\"11\"/><name val=\"Calibri\"/></font>");
     x.push_str("<font><b val=\"0\"/><i/><sz val=\"10\"/><color rgb=\"FF0000FF\"/><name val=\"Arial\"/></font>");
     x.push_str(if g.rng.chance(1, 2) { "<font><b val=\"1\"/><sz val=\"12\"/><color theme=\"1\"/><name val=\"Arial\"/></font>" } else { "<font><b val=\"true\"/><sz val=\"12\"/><name val=\"Arial\"/></font>" });
+    x.push_str("<font><name val=\"R&amp;D Sans\"/><u/><strike/><color theme=\"4\" tint=\"-0.249977111117893\"/><sz val=\"9.5\"/><scheme val=\"minor\"/></font>");
+    x.push_str(if g.rng.chance(1, 2) { "<font><i val=\"false\"/><u val=\"double\"/><color indexed=\"10\"/></font>" } else { "<font><strike val=\"0\"/><u val=\"singleAccounting\"/><vertAlign val=\"superscript\"/><sz val=\"8\"/></font>" });
     x.push_str("</fonts>");
-    x.push_str("<fills count=\"5\"><fill><patternFill patternType=\"none\"/></fill><fill><patternFill patternType=\"gray125\"/></fill>");
+    x.push_str("<fills count=\"6\"><fill><patternFill patternType=\"none\"/></fill><fill><patternFill patternType=\"gray125\"/></fill>");
     x.push_str("<fill><patternFill patternType=\"solid\"><fgColor rgb=\"FFFFFF00\"/><bgColor indexed=\"64\"/></patternFill></fill>");
     x.push_str("<fill><patternFill patternType=\"solid\"><fgColor theme=\"4\" tint=\"0.5\"/><bgColor indexed=\"64\"/></patternFill></fill>");
-    x.push_str("<fill><patternFill patternType=\"darkGray\"><fgColor rgb=\"FF12AB9F\"/></patternFill></fill></fills>");
-    x.push_str("<borders count=\"2\"><border><left/><right/><top/><bottom/><diagonal/></border>");
-    x.push_str("<border><left style=\"thin\"><color auto=\"1\"/></left><right/><top/><bottom style=\"thin\"><color rgb=\"FF000000\"/></bottom><diagonal/></border></borders>");
+    x.push_str("<fill><patternFill patternType=\"darkGray\"><fgColor rgb=\"FF12AB9F\"/></patternFill></fill>");
+    x.push_str("<fill><patternFill><bgColor theme=\"1\"/></patternFill></fill></fills>");
+    x.push_str("<borders count=\"3\"><border><left/><right/><top/><bottom/><diagonal/></border>");
+    x.push_str("<border><left style=\"thin\"><color auto=\"1\"/></left><right/><top/><bottom style=\"thin\"><color rgb=\"FF000000\"/></bottom><diagonal/></border>");
+    x.push_str("<border diagonalUp=\"1\"><left style=\"double\"><color indexed=\"64\"/></left><right style=\"mediumDashDot\"><color theme=\"5\" tint=\"0.25\"/></right><top style=\"hair\"/><bottom/><diagonal style=\"thin\"><color rgb=\"FFFF0000\"/></diagonal></border></borders>");
     x.push_str("<cellStyleXfs count=\"1\"><xf numFmtId=\"0\" fontId=\"0\" fillId=\"0\" borderId=\"0\"/></cellStyleXfs>");
-    let n_xf = g.rng.range(1, 7) as u32;
+    let n_xf = g.rng.range(1, 9) as u32;
     x.push_str(&format!("<cellXfs count=\"{}\">", n_xf));
     let nfs: Vec<u32> = if with_numfmts { vec![0, 1, 2, 9, 10, 14, 22, 49, 164, 165, 166, 170] } else { vec![0, 1, 2, 9, 14, 49] };
     for i in 0..n_xf {
@@ -440,31 +445,52 @@ fn gen_styles(g: &mut G) -> StyleBook {
             continue;
         }
         let nf = *g.rng.pick(&nfs);
-        let font = g.rng.below(4);
-        let fill = g.rng.below(5);
-        let border = g.rng.below(2);
+        // few components, many xfs: xfs share fonts / fills / borders
+        let font = g.rng.below(6);
+        let fill = g.rng.below(6);
+        let border = g.rng.below(3);
         let mut a = format!("<xf numFmtId=\"{}\" fontId=\"{}\" fillId=\"{}\" borderId=\"{}\" xfId=\"0\"", nf, font, fill, border);
-        let flags = g.rng.chance(2, 3);
-        if flags {
-            if nf != 0 {
-                a.push_str(" applyNumberFormat=\"1\"");
-            }
-            if font != 0 {
-                a.push_str(" applyFont=\"1\"");
-            }
-            if fill != 0 {
-                a.push_str(" applyFill=\"1\"");
-            }
-            if border != 0 {
-                a.push_str(" applyBorder=\"1\"");
-            }
-        } else {
+        let mode = g.rng.below(3);
+        if mode == 0 {
             g.p("xf.no-apply-flags");
-        }
-        if g.rng.chance(1, 4) {
-            a.push_str(" applyAlignment=\"1\"><alignment horizontal=\"center\" wrapText=\"1\"/></xf>");
         } else {
+            // every apply* flag independently: absent / 1 / 0 / true / false
+            for k in ["applyNumberFormat", "applyFont", "applyFill", "applyBorder", "applyAlignment", "applyProtection"] {
+                match g.rng.below(if mode == 1 { 4 } else { 8 }) {
+                    0 | 4 | 5 | 6 | 7 => {}
+                    1 => a.push_str(&format!(" {}=\"1\"", k)),
+                    2 => {
+                        a.push_str(&format!(" {}=\"0\"", k));
+                        g.p("xf.apply-0");
+                    }
+                    _ => {
+                        let w = if g.rng.chance(1, 2) { "true" } else { "false" };
+                        a.push_str(&format!(" {}=\"{}\"", k, w));
+                        g.p(&format!("xf.apply-{}", w));
+                    }
+                }
+            }
+        }
+        let al = g.rng.below(4);
+        let pr = g.rng.chance(1, 4);
+        if al == 0 && !pr {
             a.push_str("/>");
+        } else {
+            a.push('>');
+            match al {
+                1 => a.push_str("<alignment horizontal=\"center\" wrapText=\"1\"/>"),
+                2 => a.push_str("<alignment vertical=\"top\" textRotation=\"45\"/>"),
+                3 => a.push_str("<alignment horizontal=\"right\" vertical=\"center\" wrapText=\"false\" indent=\"1\"/>"),
+                _ => {}
+            }
+            if al != 0 {
+                g.p("xf.alignment");
+            }
+            if pr {
+                a.push_str(if g.rng.chance(1, 2) { "<protection locked=\"0\"/>" } else { "<protection locked=\"1\" hidden=\"true\"/>" });
+                g.p("xf.protection");
+            }
+            a.push_str("</xf>");
         }
         x.push_str(&a);
         g.p(&format!("xf.numFmt{}", if nf >= 164 { "custom" } else { "builtin" }));
@@ -1149,6 +1175,83 @@ fn facts(st: &Style) -> String {
     format!("{}_{}_{}_{}", nf, if bold { "b" } else { "-" }, pat, fg)
 }
 
+/// presence of a value in a `…Value` field, from the derived Debug text (`field: XValue { value: Some(`)
+fn dbg_has<T: std::fmt::Debug>(x: &T, field: &str) -> bool {
+    let d = format!("{:?}", x);
+    d.split(&format!("{}: ", field)).nth(1).map(|r| r.split('}').next().unwrap_or("").contains("Some(")).unwrap_or(false)
+}
+
+fn color_full(c: &Color) -> String {
+    let idx = dbg_has(c, "indexed");
+    let rgb = if idx || !dbg_has(c, "argb") { "~".to_string() } else { hex(c.get_argb()) };
+    let theme = if dbg_has(c, "theme_index") { c.get_theme_index().to_string() } else { "~".into() };
+    let indexed = if idx { c.get_indexed().to_string() } else { "~".into() };
+    let tint = if dbg_has(c, "tint") { bits(*c.get_tint()) } else { "~".into() };
+    format!("{}^{}^{}^{}", rgb, theme, indexed, tint)
+}
+
+fn flag(b: bool) -> &'static str {
+    if b {
+        "1"
+    } else {
+        "0"
+    }
+}
+
+pub const DEFAULT_FULL: &str = "0_-_-_-_-_-";
+
+/// the resolved effective facts of a cell's style through the public getters: number format, font (name, size, bold,
+/// italic, strike, underline, colour), pattern fill (type, both colours), the five border edges (style, colour) and the
+/// diagonal flags, alignment, protection
+fn facts_full(st: &Style) -> String {
+    let nf = match st.get_number_format() {
+        Some(n) => {
+            let id = *n.get_number_format_id();
+            if id >= 164 {
+                let code = n.get_format_code();
+                format!("{}:{}", id, if code.is_empty() { "~".to_string() } else { hex(code) })
+            } else {
+                id.to_string()
+            }
+        }
+        None => "0".to_string(),
+    };
+    let font = match st.get_font() {
+        Some(f) => format!("{}:{}:{}{}{}:{}:{}", or_tilde(f.get_name()), bits(*f.get_size()), flag(*f.get_bold()), flag(*f.get_italic()), flag(*f.get_strikethrough()), if dbg_has(f, "font_underline") { f.get_underline() } else { "none" }, color_full(f.get_color())),
+        None => "-".into(),
+    };
+    let fill = match st.get_fill() {
+        Some(f) => match f.get_pattern_fill() {
+            Some(p) => format!(
+                "{}:{}:{}",
+                p.get_pattern_type().get_value_string(),
+                p.get_foreground_color().map(color_full).unwrap_or("-".into()),
+                p.get_background_color().map(color_full).unwrap_or("-".into())
+            ),
+            None => "none:-:-".into(),
+        },
+        None => "-".into(),
+    };
+    let edge = |b: &Border| format!("{}^{}", b.get_border_style(), color_full(b.get_color()));
+    let border = match st.get_borders() {
+        Some(b) => format!("{}:{}:{}:{}:{}:{}{}", edge(b.get_left()), edge(b.get_right()), edge(b.get_top()), edge(b.get_bottom()), edge(b.get_diagonal()), flag(*b.get_diagonal_up()), flag(*b.get_diagonal_down())),
+        None => "-".into(),
+    };
+    let align = match st.get_alignment() {
+        Some(a) => format!("{}:{}:{}:{}", a.get_horizontal().get_value_string(), a.get_vertical().get_value_string(), flag(*a.get_wrap_text()), a.get_text_rotation()),
+        None => "-".into(),
+    };
+    let prot = match st.get_protection() {
+        Some(p) => {
+            let mut q = p.clone();
+            let h = *q.get_hidden();
+            format!("{}{}", flag(*p.get_locked()), flag(h))
+        }
+        None => "-".into(),
+    };
+    format!("{}_{}_{}_{}_{}_{}", nf, font, fill, border, align, prot)
+}
+
 fn bits(f: f64) -> String {
     format!("{:016x}", f.to_bits())
 }
@@ -1254,11 +1357,11 @@ pub fn view(book: &Spreadsheet) -> String {
                 // a formula cell whose cached string result is empty is the same as one without a cached result
                 // (below the abstraction: an empty string value is not distinguished from no value)
                 let kind = if c.get_data_type() == "s" && c.get_value().is_empty() { "" } else { c.get_data_type() };
-                let fx = facts(c.get_style());
+                let fx = facts_full(c.get_style());
                 // the library creates a cell for every hyperlink anchor (it inherits the column / row style):
                 // a cell without value and formula that anchors a hyperlink is not compared
                 let anchor_only = kind.is_empty() && f.is_empty() && c.get_hyperlink().is_some();
-                if !(kind.is_empty() && f.is_empty() && fx == DEFAULT_FACTS) && !anchor_only {
+                if !(kind.is_empty() && f.is_empty() && fx == DEFAULT_FULL) && !anchor_only {
                     let val = if kind == "n" { c.get_value_number().map(bits).unwrap_or("nan?".into()) } else { hex(&c.get_value()) };
                     cells.push(format!("{}/{}/{}/{}/{}", coord, kind, val, if f.is_empty() { "~".to_string() } else { hex(f) }, fx));
                 }
